@@ -51,6 +51,30 @@ KNOWN_TEMPLATES = {
 TERMINALS = {"Sum", "Count", "Aggregate", "First", "Min", "Max"}
 
 
+# Python forms outside the documented operator list that a translator may come to accept: chained comparisons (each link
+# compares NEIGHBOURING operands), `in` over a literal tuple, floor division, bitwise and / or on booleans, a conditional
+# chain, abs/min/max of numbers.  Refusing them is fine; accepting them and computing something else is not.
+OPTIONAL_FORMS = [
+    'ds.Select(lambda e: e.{C}("b1").Where(lambda j: 1 < j.pt() < 30).Count())',
+    'ds.Select(lambda e: e.{C}("b1").Where(lambda j: 0 <= j.eta() < j.pt() <= 31).Select(lambda j: j.pt()))',
+    'ds.Select(lambda e: e.{C}("b1").Select(lambda j: 1 if 0 < j.eta() < 2 else 0))',
+    'ds.Where(lambda e: 0 < e.{C}("b1").Count() < 3).Select(lambda e: e.{D}("b1").Count())',
+    'ds.Select(lambda e: e.{C}("b1").Where(lambda j: 30 > j.pt() > 1 != j.eta()).Count())',
+    'ds.Select(lambda e: e.{C}("b1").Select(lambda j: j.nTrk() // 2))',
+    'ds.Select(lambda e: e.{C}("b1").Where(lambda j: j.nTrk() in (1, 3, 7)).Count())',
+    'ds.Select(lambda e: e.{C}("b1").Where(lambda j: (j.pt() > 1) & (j.eta() > 0)).Count())',
+    'ds.Select(lambda e: e.{C}("b1").Where(lambda j: (j.pt() > 30) | (j.eta() > 0)).Count())',
+    'ds.Select(lambda e: e.{C}("b1").Select(lambda j: abs(j.eta())))',
+    'ds.Select(lambda e: e.{C}("b1").Select(lambda j: max(j.pt(), j.eta())))',
+    'ds.Select(lambda e: e.{C}("b1").Select(lambda j: min(j.pt(), 1.5)))',
+    'ds.Select(lambda e: e.{C}("b1").Select(lambda j: j.pt() if j.pt() > 30 else (j.eta() if j.eta() > 0 else 0.5)))',
+    'ds.Select(lambda e: e.{C}("b1").Select(lambda j: -j.pt() + +j.eta()))',
+    'ds.Select(lambda e: e.{C}("b1").Select(lambda j: j.pt() ** 2))',
+    'ds.Select(lambda e: e.{C}("b1").Where(lambda j: not j.isGood()).Count())',
+    'ds.Select(lambda e: e.{C}("b1").Where(lambda j: j.isGood() == True).Count())',
+]
+
+
 def classify(src: str) -> Optional[str]:
     """Known-defect class of a query, decided on its source only (None = no known defect applies)."""
     try:
@@ -274,6 +298,26 @@ def check(tier: str, seed: int, t0: float, build: core.BuildStatus) -> int:
                         bad = diffs[0][1]
                 if bad:
                     oc.violations.append(core.Violation(key=key, what=f"{be}: {bad}: {src}", replay={"kind": "query", "backend": be, "query": src, "difference": bad}))
+        # ---------------- forms the implementation may refuse; if it accepts one, the job computes what Python means ----------------
+        for be in BACKENDS:
+            uni = qgen.Universe(be)
+            md = uni.metadata()
+            cs = list(uni.colls)
+            for tmpl in OPTIONAL_FORMS:
+                src = tmpl.replace("{C}", cs[0]).replace("{D}", cs[1])
+                c = semrun.translate(be, src, md, model)
+                oc.evaluations += 1
+                hist[f"optional-form:{c.status}"] += 1
+                if c.status != "ok":
+                    continue   # refused (C09's subject) or outside the IR
+                evs = [qgen.gen_event(rng, uni, [(cs[0], "b1"), (cs[1], "b1")], sizes=[0, 1, 2, 3, 4]) for _ in range(12)]
+                diffs, unsup = semrun.differential(model, c, uni, evs)
+                if diffs:
+                    i, d = diffs[0]
+                    oc.violations.append(core.Violation(key="c01:rows", what=f"{be}: {d}: {src}",
+                                                        replay={"kind": "query", "backend": be, "query": src, "metadata": "universe", "event": evs[i], "difference": d}))
+                elif not unsup:
+                    oc.traces_validated_against_impl += 1
         # ---------------- random queries over all documented operators ----------------
         for be in BACKENDS:
             uni = qgen.Universe(be)
